@@ -25,6 +25,12 @@ int main(void)
         if(tickit_rect_intersect(dst, &a, &b)) pr(1, dst); else printf("0\n");
         free(dst); break;
       }
+      /* the same with the destination aliasing the first / the second argument, as callers
+       * such as window.c do (intersect(&r, &r, &bounds)) */
+      case 'J': { TickitRect *x = malloc(sizeof *x); *x = a;
+        if(tickit_rect_intersect(x, x, &b)) pr(1, x); else printf("0\n"); free(x); break; }
+      case 'K': { TickitRect *x = malloc(sizeof *x); *x = b;
+        if(tickit_rect_intersect(x, &a, x)) pr(1, x); else printf("0\n"); free(x); break; }
       case 'S': printf("%d\n", tickit_rect_intersects(&a, &b) ? 1 : 0); break;
       case 'C': printf("%d\n", tickit_rect_contains(&a, &b) ? 1 : 0); break;
       case 'A': {
